@@ -29,8 +29,8 @@ ASSUMPTIONS = ["members are built with >= 2 distinct timestamps or an explicit s
 U = 1953125  # 2^-9 s in ticks
 
 # python key object, (kind, value) for the model: kind 0 int, 1 numeric string, 2 rejected by int(), 3 float, 4 float with a fraction
-KEYS = [("7", (1, 7)), (2.0, (3, 2)), (5, (0, 5)), (0, (0, 0)), (-3, (0, -3))]
-KEYS2 = [(1, (0, 1)), ("9", (1, 9)), (4.0, (3, 4)), (8, (0, 8)), (5, (0, 5)), (-3, (0, -3))]
+KEYS = [("7", (1, 7)), (2.0, (3, 2)), (5, (0, 5)), (0, (0, 0)), (-3, (0, -3)), ("10", (1, 10)), ("100", (1, 100))]
+KEYS2 = [(1, (0, 1)), ("9", (1, 9)), (4.0, (3, 4)), (8, (0, 8)), (5, (0, 5)), (-3, (0, -3)), ("12", (1, 12))]
 BADKEYS = [("a", (2, 0)), ("2.0", (2, 0)), (2.5, (4, 2)), (-2.5, (4, -2)), (None, (2, 0))]
 
 # member templates: (name, kind, timestamps, support) in units of U.  kind 0 Ts(t, support) 1 raw array 2 Ts(t) 4 Tsd(t, d, support)
